@@ -361,6 +361,9 @@ func main() {
 	case "c13dry":
 		clirun.Parallel(16, genC13Dry(w, *tier, &mu))
 		return
+	case "c10lock":
+		clirun.Parallel(16, genC10Lock(w, *tier, &mu))
+		return
 	case "c13fk":
 		clirun.Parallel(16, genC13Fk(w, *tier, &mu))
 		return
